@@ -2,7 +2,9 @@
 mode, called with a differentiated array as a positional argument: it either
 raises, or returns a derivative that is non-zero wherever the NumPy function
 genuinely varies with that argument (never silently constant); (B) the
-explicit unsupported requests must raise at the point of use."""
+explicit unsupported requests must raise at the point of use; (C) option
+sweeps over supported functions: every option combination raises or gives the
+derivative a Richardson difference quotient of the NumPy function confirms."""
 import json
 import random
 import sys
@@ -191,6 +193,207 @@ def main():
     must_raise("primitive without JVP (hypot) in forward mode", lambda: make_jvp(lambda z: anp.hypot(z, 1.0))(x)(x))
     must_raise("svd full_matrices=True (non-square)", lambda: grad(lambda z: anp.sum(anp.linalg.svd(z, full_matrices=True)[0]))(m))
     must_raise("rfftn odd last axis", lambda: grad(lambda z: anp.sum(anp.real(anp.fft.rfftn(z))))(m))
+
+    # ---- (C) option sweeps: every option combination either raises or gives the right derivative ----
+    def ror(name, fn, x0):
+        """raise-or-right: fn maps a real array to a real/complex array (or tuple of them)."""
+        x0 = onp.asarray(x0, float)
+        r = onp.random.RandomState(abs(hash(name)) % (2 ** 31))
+        d = r.uniform(0.3, 1.0, x0.shape) * r.choice([-1.0, 1.0], x0.shape)
+
+        def scal(lib_sum, lib_real, lib_imag):
+            def s(z):
+                y = fn(z)
+                ys = list(y) if isinstance(getattr(y, "_value", y), (tuple, list)) else [y]
+                tot = 0.0
+                for k, t in enumerate(ys):
+                    w = onp.random.RandomState(17 + k).uniform(0.5, 1.5, onp.shape(t))
+                    w2 = onp.random.RandomState(99 + k).uniform(0.5, 1.5, onp.shape(t))
+                    tot = tot + lib_sum(w * lib_real(t)) + lib_sum(w2 * lib_imag(t))
+                return tot
+            return s
+        s_np = scal(onp.sum, onp.real, onp.imag)
+        s_ag = scal(anp.sum, anp.real, anp.imag)
+        try:
+            base = s_np(x0.copy())
+            if not onp.isfinite(base):
+                return
+            est = []
+            for h in (1e-3, 5e-4):
+                c1 = (s_np(x0 + h * d) - s_np(x0 - h * d)) / (2 * h)
+                c2 = (s_np(x0 + 2 * h * d) - s_np(x0 - 2 * h * d)) / (4 * h)
+                est.append((4 * c1 - c2) / 3)
+        except BaseException:
+            return
+        if not all(onp.isfinite(e) for e in est) or abs(est[0] - est[1]) > 1e-6 * (1 + abs(est[0])):
+            dist("option-sweep:not-smooth-here")
+            return
+        out["n"] += 1
+        out["keys"].append("option|" + name)
+        for mode in ("rev", "fwd"):
+            try:
+                if mode == "rev":
+                    got = float(onp.sum(onp.asarray(grad(s_ag)(x0.copy())) * d))
+                else:
+                    got = float(make_jvp(s_ag)(x0.copy())(d)[1])
+            except BaseException:
+                dist("option-sweep:%s:raises" % mode)
+                continue
+            if not abs(got - est[1]) <= 1e-5 * (1 + abs(est[1])):
+                dist("option-sweep:%s:WRONG" % mode)
+                out["bad"].append({"callable": name, "mode": mode,
+                                   "what": "option accepted without an exception but the derivative is wrong: d/dt f(x+t d) = %.8g numerically, autograd returns %.8g" % (est[1], got),
+                                   "site": {"callable": name.split("(")[0], "kind": "wrong-option", "mode": mode}})
+            else:
+                dist("option-sweep:%s:right" % mode)
+
+    rs = onp.random.RandomState(5)
+    vec = rs.uniform(0.4, 2.0, 4) * onp.array([1, -1, 1, -1.0])
+    mat = rs.uniform(0.4, 2.0, (3, 3)) * rs.choice([-1.0, 1.0], (3, 3))
+    rect = rs.uniform(0.4, 2.0, (2, 3)) * rs.choice([-1.0, 1.0], (2, 3))
+    t3 = rs.uniform(0.4, 2.0, (2, 3, 2)) * rs.choice([-1.0, 1.0], (2, 3, 2))
+    t4 = rs.uniform(0.4, 2.0, (2, 3, 2, 3))
+    spd = mat @ mat.T + 3 * onp.eye(3)
+    inf = onp.inf
+    for o in (None, "fro", "nuc", 0.5, 1, -1, 2, -2, 3, 4.5, inf, -inf):
+        ror("linalg.norm(vec,ord=%r)" % (o,), lambda z, o=o: anp.linalg.norm(z, o), vec)
+        for xs, nm in ((mat, "mat"), (rect, "rect")):
+            ror("linalg.norm(%s,ord=%r)" % (nm, o), lambda z, o=o: anp.linalg.norm(z, o), xs)
+            for ax in (0, 1, -1, (0, 1), (1, 0)):
+                ror("linalg.norm(%s,ord=%r,axis=%r)" % (nm, o, ax), lambda z, o=o, ax=ax: anp.linalg.norm(z, o, ax), xs)
+        for ax in (0, 2, (0, 1), (1, 2), (2, 0), (0, 2), (-1, 0), (2, 1)):
+            ror("linalg.norm(t3,ord=%r,axis=%r)" % (o, ax), lambda z, o=o, ax=ax: anp.linalg.norm(z, o, ax), t3)
+        ror("linalg.norm(t3,ord=%r,axis=(2,0),keepdims)" % (o,), lambda z, o=o: anp.linalg.norm(z, o, (2, 0), True), t3)
+        for ax in ((3, 1), (0, 3), (2, 0)):
+            ror("linalg.norm(t4,ord=%r,axis=%r)" % (o, ax), lambda z, o=o, ax=ax: anp.linalg.norm(z, o, ax), t4)
+    for mode in ("constant", "edge", "reflect", "symmetric", "wrap", "mean", "maximum", "minimum", "median", "linear_ramp", "empty"):
+        for width in (1, (1, 2), ((1, 0), (2, 1))):
+            xs = rect if isinstance(width, tuple) and isinstance(width[0], tuple) else vec
+            ror("pad(mode=%s,width=%r)" % (mode, width), lambda z, mode=mode, width=width: anp.pad(z, width, mode), xs)
+    for cv in (0, 2.5, (1.5, -2.0)):
+        ror("pad(constant,constant_values=%r)" % (cv,), lambda z, cv=cv: anp.pad(z, 2, "constant", constant_values=cv), vec)
+        ror("pad(rect,constant,constant_values=%r)" % (cv,), lambda z, cv=cv: anp.pad(z, ((1, 1), (0, 2)), "constant", constant_values=cv), rect)
+    for ax in (None, 0, 1, -1):
+        for fnm in ("sort", "cumsum", "cumprod", "max", "min", "sum", "prod", "mean", "std", "var", "median", "ptp",
+                    "amax", "amin", "nansum", "nanmax", "nanmin", "nanmean", "nanstd", "nanvar", "logsumexp_missing"):
+            if not hasattr(anp, fnm):
+                continue
+            f = getattr(anp, fnm)
+            ror("%s(rect,axis=%r)" % (fnm, ax), lambda z, f=f, ax=ax: f(z, axis=ax), rect)
+            ror("%s(t3,axis=%r)" % (fnm, ax), lambda z, f=f, ax=ax: f(z, axis=ax), t3)
+        for fnm in ("max", "min", "sum", "prod", "mean", "std", "var"):
+            f = getattr(anp, fnm)
+            ror("%s(t3,axis=%r,keepdims)" % (fnm, ax), lambda z, f=f, ax=ax: f(z, axis=ax, keepdims=True), t3)
+    for ax in ((0, 1), (0, 2), (-1, 0), (2, 1), (0, 1, 2)):
+        for fnm in ("max", "min", "sum", "prod", "mean", "std", "var"):
+            f = getattr(anp, fnm)
+            ror("%s(t3,axis=%r)" % (fnm, ax), lambda z, f=f, ax=ax: f(z, axis=ax), t3)
+            ror("%s(t3,axis=%r,keepdims)" % (fnm, ax), lambda z, f=f, ax=ax: f(z, axis=ax, keepdims=True), t3)
+    for ddof in (0, 1, 2):
+        for fnm in ("std", "var"):
+            f = getattr(anp, fnm)
+            ror("%s(rect,axis=1,ddof=%d)" % (fnm, ddof), lambda z, f=f, ddof=ddof: f(z, axis=1, ddof=ddof), mat)
+            ror("%s(t3,axis=(0,2),ddof=%d)" % (fnm, ddof), lambda z, f=f, ddof=ddof: f(z, axis=(0, 2), ddof=ddof), t3)
+    for kth in (0, 1, 2):
+        ror("partition(vec,%d)" % kth, lambda z, kth=kth: anp.partition(z, kth), vec)
+        ror("partition(rect,%d,axis=1)" % kth, lambda z, kth=kth: anp.partition(z, kth, axis=1), rect)
+    for args in ((), (2.0,), (onp.array([0.0, 1.0, 3.0, 4.5]),)):
+        for eo in (1, 2):
+            ror("gradient(vec,*%r,edge_order=%d)" % (tuple(onp.shape(a) for a in args), eo),
+                lambda z, args=args, eo=eo: anp.gradient(z, *args, edge_order=eo), vec)
+    for ax in (None, 0, 1, (0, 1)):
+        ror("gradient(mat,axis=%r)" % (ax,), lambda z, ax=ax: anp.gradient(z, axis=ax), mat)
+    for n in (1, 2, 3):
+        for ax in (0, 1, -1):
+            ror("diff(rect,n=%d,axis=%d)" % (n, ax), lambda z, n=n, ax=ax: anp.diff(z, n=n, axis=ax), mat)
+    ror("diff(vec,prepend)", lambda z: anp.diff(z, prepend=0.5), vec)
+    ror("diff(vec,append)", lambda z: anp.diff(z, append=onp.array([0.5, 0.1])), vec)
+    for reps in (2, (2,), (2, 1), (1, 2, 2), (2, 2)):
+        ror("tile(rect,%r)" % (reps,), lambda z, reps=reps: anp.tile(z, reps), rect)
+    for reps, ax in ((2, None), (2, 0), (2, 1), (2, -1), (onp.array([1, 2]), 0), (onp.array([2, 0, 1]), 1), ([1, 2, 1, 0, 2, 1], None)):
+        ror("repeat(rect,%r,axis=%r)" % (onp.asarray(reps).tolist(), ax), lambda z, reps=reps, ax=ax: anp.repeat(z, reps, axis=ax), rect)
+    for sh, ax in ((1, None), (-2, None), (1, 0), (2, 1), ((1, 2), (0, 1)), ((1, -1), (1, 1))):
+        ror("roll(rect,%r,axis=%r)" % (sh, ax), lambda z, sh=sh, ax=ax: anp.roll(z, sh, axis=ax), rect)
+    for k in (-1, 0, 1, 2):
+        ror("triu(rect,k=%d)" % k, lambda z, k=k: anp.triu(z, k), rect)
+        ror("tril(t3,k=%d)" % k, lambda z, k=k: anp.tril(z, k), t3)
+        ror("diag(vec,k=%d)" % k, lambda z, k=k: anp.diag(z, k), vec)
+        ror("diag(rect,k=%d)" % k, lambda z, k=k: anp.diag(z, k), rect)
+        ror("diagonal(t3,offset=%d,axis1=2,axis2=0)" % k, lambda z, k=k: anp.diagonal(z, k, 2, 0), t3)
+        ror("trace(t3,offset=%d,axis1=2,axis2=0)" % k, lambda z, k=k: anp.trace(z, k, 2, 0), t3)
+        ror("trace(rect,offset=%d)" % k, lambda z, k=k: anp.trace(z, k), rect)
+        ror("rot90(rect,k=%d)" % k, lambda z, k=k: anp.rot90(z, k), rect)
+    for axes in (1, 2, 0, ([1], [0]), ([0, 1], [1, 0]), ([1, 0], [0, 1]), ([2, 0], [0, 1]), ([0, 2], [1, 0])):
+        B = rs.uniform(0.5, 1.5, (3, 2, 2)) if not isinstance(axes, int) or axes != 2 else rs.uniform(0.5, 1.5, (3, 2, 2))
+        ror("tensordot(t3,B,axes=%r)" % (axes,), lambda z, axes=axes, B=B: anp.tensordot(z, B, axes), t3)
+        ror("tensordot(B,t3,axes=%r)" % (axes,), lambda z, axes=axes, B=B: anp.tensordot(B, z, axes), t3)
+    for sub in ("ij,jk->ik", "ij,kj->ik", "ii->i", "ii", "ij->", "ij,ij->", "ij,j", "...j,j", "i...,i...->...", "ij,ij,ij->i", "ji", "ij->ji", "iij->j"):
+        ops = {"ii->i": (mat,), "ii": (mat,), "ij->": (mat,), "ji": (mat,), "ij->ji": (mat,), "iij->j": (rs.uniform(0.5, 1.5, (2, 2, 3)),),
+               "ij,ij,ij->i": (mat, mat.T.copy(), spd)}.get(sub, (mat, spd))
+        for pos in range(len(ops)):
+            ror("einsum(%r,arg%d)" % (sub, pos), lambda z, sub=sub, ops=ops, pos=pos: anp.einsum(sub, *[z if i == pos else o for i, o in enumerate(ops)]), ops[pos])
+    for fm in (True, False):
+        ror("svd(rect,full_matrices=%r)" % fm, lambda z, fm=fm: anp.linalg.svd(z, full_matrices=fm)[1], rect)
+        ror("svd(mat,full_matrices=%r)[all]" % fm, lambda z, fm=fm: (lambda u, sv, vt: anp.dot(u * sv, vt))(*anp.linalg.svd(z, full_matrices=fm)), mat)
+    ror("svd(rect,compute_uv=False)", lambda z: anp.linalg.svd(z, compute_uv=False), rect)
+    for uplo in ("L", "U"):
+        ror("eigh(spd,UPLO=%s)" % uplo, lambda z, uplo=uplo: anp.linalg.eigh((z + z.T) / 2, uplo)[0], spd)
+        ror("eigh(nonsym,UPLO=%s)" % uplo, lambda z, uplo=uplo: anp.linalg.eigh(z, uplo)[0], spd + onp.triu(mat, 1))
+    for nm in ("fft", "ifft", "rfft", "irfft"):
+        f = getattr(anp.fft, nm)
+        for n in (None, 3, 4, 6):
+            for norm in (None, "ortho", "forward"):
+                ror("fft.%s(vec,n=%r,norm=%r)" % (nm, n, norm), lambda z, f=f, n=n, norm=norm: f(z, n=n, norm=norm), vec)
+        for ax in (0, 1, -2):
+            ror("fft.%s(t4-slice,axis=%d)" % (nm, ax), lambda z, f=f, ax=ax: f(z, axis=ax), t4[0, :, :, 0] if nm != "x" else None)
+    for nm in ("fft2", "ifft2", "fftn", "ifftn", "rfft2", "rfftn", "irfft2", "irfftn"):
+        f = getattr(anp.fft, nm)
+        x2 = rs.uniform(0.5, 1.5, (4, 4))
+        for kw in ({}, {"s": (4, 4)}, {"s": (2, 4)}, {"s": (6, 4)}, {"axes": (0, 1)}, {"axes": (1, 0)}, {"axes": (0, 0)}, {"axes": (1, 1)},
+                   {"axes": (-1, -2)}, {"norm": "ortho"}, {"s": (4, 6), "axes": (1, 0)}):
+            ror("fft.%s(x,%r)" % (nm, kw), lambda z, f=f, kw=kw: f(z, **kw), x2)
+    for nm in ("fftshift", "ifftshift"):
+        f = getattr(anp.fft, nm)
+        for ax in (None, 0, 1, (0, 1)):
+            ror("fft.%s(rect,axes=%r)" % (nm, ax), lambda z, f=f, ax=ax: f(z, axes=ax), rect)
+    for lo, hi in ((-0.5, 0.9), (None, 0.9), (-0.5, None), (onp.array([-0.5, 0.1, -1.0, 0.3]), 1.2)):
+        ror("clip(vec,%r,%r)" % (onp.shape(lo), onp.shape(hi)), lambda z, lo=lo, hi=hi: anp.clip(z, lo, hi), vec)
+    for ax in (None, 0, 1, -1):
+        ror("concatenate((x,y),axis=%r)" % (ax,), lambda z, ax=ax: anp.concatenate((z, 2 * z), axis=ax), rect)
+        if ax is not None:
+            ror("stack((x,y),axis=%r)" % (ax,), lambda z, ax=ax: anp.stack((z, 2 * z), axis=ax), rect)
+            ror("expand_dims(x,%r)" % (ax,), lambda z, ax=ax: anp.expand_dims(z, ax), rect)
+            ror("flip(x,%r)" % (ax,), lambda z, ax=ax: anp.flip(z, ax), rect)
+            ror("take(x,[1,0,1],axis=%r)" % (ax,), lambda z, ax=ax: anp.take(z, [1, 0, 1], axis=ax), rect)
+            ror("swapaxes(t3,%r,0)" % (ax,), lambda z, ax=ax: anp.swapaxes(z, ax, 0), t3)
+            ror("moveaxis(t3,%r,2)" % (ax,), lambda z, ax=ax: anp.moveaxis(z, ax, 2), t3)
+            ror("rollaxis(t3,%r)" % (ax,), lambda z, ax=ax: anp.rollaxis(z, ax), t3)
+            ror("squeeze-expand(t3,%r)" % (ax,), lambda z, ax=ax: anp.squeeze(anp.expand_dims(z, ax), ax), t3)
+            ror("cumsum-rev(t3,%r)" % (ax,), lambda z, ax=ax: anp.cumsum(z[::-1], axis=ax), t3)
+    for order in ("C", "F", "A"):
+        ror("reshape(rect,(3,2),order=%s)" % order, lambda z, order=order: anp.reshape(z, (3, 2), order=order), rect)
+        ror("ravel(rect,order=%s)" % order, lambda z, order=order: anp.ravel(z, order=order), rect)
+    for axes in (None, (1, 0, 2), (2, 0, 1), (-1, 0, 1), (0, -1, -2)):
+        ror("transpose(t3,%r)" % (axes,), lambda z, axes=axes: anp.transpose(z, axes), t3)
+    for kw in ({}, {"axis": 0}, {"axisa": 0, "axisb": 0}, {"axisc": 0}, {"axisa": 0, "axisb": 1, "axisc": 0}):
+        Bm = rs.uniform(0.5, 1.5, (3, 3))
+        ror("cross(mat,B,%r)" % (kw,), lambda z, kw=kw, Bm=Bm: anp.cross(z, Bm, **kw), mat)
+        ror("cross(B,mat,%r)" % (kw,), lambda z, kw=kw, Bm=Bm: anp.cross(Bm, z, **kw), mat)
+    for p in (2, 3, -1, 0.5, 0):
+        ror("power(abs x,%r)" % p, lambda z, p=p: anp.power(anp.abs(z), p), vec)
+        ror("linalg.matrix_power(mat,%r)" % p, lambda z, p=p: anp.linalg.matrix_power(z, p), mat) if isinstance(p, int) else None
+    for nm in ("inv", "pinv", "det", "slogdet", "cholesky", "eig", "eigvals", "eigvalsh", "qr", "matrix_rank", "cond", "lstsq_missing", "tensorinv", "tensorsolve", "multi_dot"):
+        if hasattr(anp.linalg, nm) and nm not in ("tensorinv", "tensorsolve", "multi_dot", "matrix_rank"):
+            f = getattr(anp.linalg, nm)
+            # functions of a symmetric matrix are differentiated on the symmetric subspace
+            sym = (lambda z: (z + anp.swapaxes(z, -1, -2)) / 2) if nm in ("cholesky", "eigvalsh") else (lambda z: z)
+            ror("linalg.%s(spd)" % nm, lambda z, f=f, sym=sym: f(sym(z)), spd)
+            ror("linalg.%s(stack of spd)" % nm, lambda z, f=f, sym=sym: f(sym(z)), onp.stack([spd, spd + onp.eye(3)]))
+    for bshape in ((3,), (3, 2), (2, 3, 1)):
+        Bm = rs.uniform(0.5, 1.5, bshape)
+        A = spd if len(bshape) < 3 else onp.stack([spd, spd + onp.eye(3)])
+        ror("linalg.solve(A,b%r) wrt A" % (bshape,), lambda z, Bm=Bm: anp.linalg.solve(z, Bm), A)
+        ror("linalg.solve(A,b%r) wrt b" % (bshape,), lambda z, A=A: anp.linalg.solve(A, z), Bm)
     out["keys"] = sorted(set(out["keys"]))
     print(json.dumps(out, default=str))
 
